@@ -71,8 +71,14 @@ def cases(rng, tier):
             continue
         corpus = [c for c in pc if c[1] == "corpus"]
         rest = [c for c in pc if c[1] != "corpus"]
-        k = 8 if m.ID == "C19" else per
-        pick = corpus + (sub.sample(rest, k) if len(rest) > k else rest)
+        # stratified by generator family: the targeted families (few cases each in a uniform sample) are the ones that reach the unusual paths
+        fams = {}
+        for c in rest: fams.setdefault(c[1], []).append(c)
+        kf = (4 if m.ID == "C19" else 60) if tier == "quick" else (40 if m.ID == "C19" else 600)
+        pick = list(corpus)
+        for f in sorted(fams):
+            l = fams[f]
+            pick += sub.sample(l, kf) if len(l) > kf else l
         for (c, fam) in pick: cs.append(("@%s %s" % (m.ID.lower(), c), "sweep_" + m.ID))
     return cs
 
